@@ -37,7 +37,7 @@ func (c07) Exhaustive(env run.Env) (bool, string) {
 
 func (c07) Phases(env run.Env) []run.Phase {
 	if env.Thorough {
-		return []run.Phase{{Name: "short-frames-all-compositions", N: 1200}, {Name: "long-frames", N: 30000}}
+		return []run.Phase{{Name: "short-frames-all-compositions", N: 8000}, {Name: "long-frames", N: 250000}}
 	}
 	return []run.Phase{{Name: "short-frames-all-compositions", N: 160}, {Name: "long-frames", N: 2500}}
 }
